@@ -98,6 +98,19 @@ void thread1(void) { tas_ret = parsec_info_test_and_set(&oa, id0, &X, NULL); don
 #elif SCEN == 4
 void thread0(void) { g0 = parsec_info_get(&oa, id0); done0 = 1; }
 void thread1(void) { g1 = parsec_info_get(&oa, id1); done1 = 1; }
+#elif SCEN == 7   /* development probe A: lock + slot read only */
+void thread0(void) { parsec_ioa_resize_and_rdlock(&oa, 0); g0 = oa.info_objects[0]; parsec_atomic_rwlock_rdunlock(&oa.rw_lock); done0 = 1; }
+void thread1(void) { g1 = oa.info_objects[0]; done1 = 1; }
+#elif SCEN == 9   /* probe C: test_and_set alone */
+void thread0(void) { g0 = parsec_info_test_and_set(&oa, 0, &X, NULL); done0 = 1; }
+void thread1(void) { g1 = oa.info_objects[0]; done1 = 1; }
+#elif SCEN == 10  /* probe D: A then B */
+void thread0(void) { parsec_ioa_resize_and_rdlock(&oa, 0); g0 = oa.info_objects[0]; parsec_atomic_rwlock_rdunlock(&oa.rw_lock);
+                     parsec_info_entry_t *ie = parsec_info_lookup_by_iid(oa.infos, 0); void *n = ie->constructor(oa.cons_obj, ie->cons_data); g0 = parsec_info_test_and_set(&oa, 0, n, NULL); done0 = 1; }
+void thread1(void) { g1 = oa.info_objects[0]; done1 = 1; }
+#elif SCEN == 8   /* development probe B: entry lookup + constructor + cas */
+void thread0(void) { parsec_info_entry_t *ie = parsec_info_lookup_by_iid(oa.infos, 0); void *n = ie->constructor(oa.cons_obj, ie->cons_data); if (parsec_atomic_cas_ptr(&oa.info_objects[0], NULL, n)) g0 = n; done0 = 1; }
+void thread1(void) { g1 = oa.info_objects[0]; done1 = 1; }
 #elif SCEN == 6   /* development probe */
 void thread0(void) { g0 = parsec_info_get(&oa, 0); done0 = 1; }
 void thread1(void) { g1 = oa.info_objects[0]; done1 = 1; }
@@ -149,7 +162,7 @@ void check(void)
     if (n_cons == 1 && slot0 == &X) VWITNESS("constructed default lost against test_and_set");
     if (slot0 == &objs[1]) VWITNESS("test_and_set lost against the constructed default");
     if (n_cons == 0) VWITNESS("test_and_set first, no construction");
-#elif SCEN == 6
+#elif SCEN >= 6
     VWITNESS("probe");
 #elif SCEN == 4
     VASSERTM(oa.known_infos == 2, "array grown to the registered infos");
